@@ -1431,9 +1431,19 @@ func (pc *pipelinedConn) RoundTrip(ctx context.Context, data []byte) (*dnsmessag
 		return nil, fmt.Errorf("failed to allocate ID: %w", err)
 	}
 
-	// Get response slot from pool
+	// Get response slot from pool. The slot goes back to the pool only when nobody
+	// else can still hold it (see the deferred clean-up below): readLoop takes the slot
+	// out of pending BEFORE it delivers into it, so after a timeout / cancellation the
+	// reader may still be about to call set() on a slot this request has given up.
+	// Recycling it then hands the late reply to whichever request gets the slot next,
+	// possibly on another connection.
 	slot := newResponseSlot()
-	defer putResponseSlot(slot)
+	recycle := false
+	defer func() {
+		if recycle {
+			putResponseSlot(slot)
+		}
+	}()
 
 	// Store the pending request
 	if !pc.pending[id].CompareAndSwap(nil, slot) {
@@ -1443,7 +1453,10 @@ func (pc *pipelinedConn) RoundTrip(ctx context.Context, data []byte) (*dnsmessag
 	pc.pendingCount.Add(1)
 
 	defer func() {
-		pc.pending[id].CompareAndSwap(slot, nil)
+		if pc.pending[id].CompareAndSwap(slot, nil) {
+			// still registered: neither readLoop nor closeWithErr has taken the slot
+			recycle = true
+		}
 		pc.idAlloc.Release(id)
 		pc.pendingCount.Add(-1)
 	}()
@@ -1470,6 +1483,11 @@ func (pc *pipelinedConn) RoundTrip(ctx context.Context, data []byte) (*dnsmessag
 	}
 
 	msg, err := slot.get(ctx)
+	if err == nil || !(errors.Is(err, context.DeadlineExceeded) || errors.Is(err, context.Canceled)) {
+		// something was delivered into the slot (a reply, or nil on connection close):
+		// whoever took it out of pending is done with it
+		recycle = true
+	}
 	if err != nil {
 		if errors.Is(err, context.DeadlineExceeded) || errors.Is(err, context.Canceled) {
 			// Avoid stale-response cross-delivery after ID reuse.
